@@ -19,6 +19,7 @@ use std::collections::BTreeMap;
 const OMITS: &str = "segment-omits-code-module-that-has-types-dependency@TypesOnly";
 const ROOT_LENIENT: &str = "segment-keeps-entry-loaded-leniently-as-original-root";
 const JSON_LENIENT: &str = "segment-keeps-json-accepted-without-attribute-in-dynamic-branch";
+const JSON_STRICT: &str = "segment-keeps-json-rejected-without-attribute-where-a-direct-build-accepts-it-in-a-dynamic-branch";
 
 fn tg(r: Result<Option<&Module>, &ModuleError>) -> String {
   match r {
@@ -173,8 +174,12 @@ fn body(space: Space) -> impl Fn(&Ch) -> Run + Sync + Send {
           let a = seg.walk(seg_roots.iter(), opts()).validate().map_err(|e| e.to_string());
           let b = g.walk(seg_roots.iter(), opts()).validate().map_err(|e| e.to_string());
           if a.is_ok() != b.is_ok() {
+            // a consequence of the recorded omission when the segment lacks a
+            // module that a types-only walk replaces by its types dependency
+            let omitted = listing(&g).keys().any(|k| !listing(&seg).contains_key(k) && skipped_by_types_only_walk(k))
+              || seg_roots.iter().any(|r| skipped_by_types_only_walk(r.as_str()) && seg.get(r).is_none());
             run.violate(
-              format!("segment-validation-differs@{kind:?}"),
+              if omitted { OMITS.to_string() } else { format!("segment-validation-differs@{kind:?}") },
               format!("validate(follow_dynamic={follow_dynamic}): segment {a:?}, original {b:?}"),
               case(),
             );
@@ -204,8 +209,16 @@ fn body(space: Space) -> impl Fn(&Ch) -> Run + Sync + Send {
                     && b.get(*k).map(|s| s.as_str()) == Some("error:UnsupportedMediaType")
                 })
                 && only_direct.iter().all(|(k, _)| a.contains_key(*k));
+              // the mirror image: the original met the file strictly first
+              let json_strictness = !only_seg.is_empty()
+                && only_seg.iter().all(|(k, v)| {
+                  v.as_str() == "error:UnsupportedMediaType" && k.ends_with(".json") && b.get(*k).map(|s| s.as_str()) == Some("json")
+                })
+                && only_direct.iter().all(|(k, _)| a.get(*k).map(|s| s.as_str()) == Some("error:UnsupportedMediaType"));
               let cls = if root_leniency {
                 "root-leniency"
+              } else if json_strictness {
+                "json-strict"
               } else if json_leniency {
                 "json-without-attribute-accepted-in-dynamic-branch"
               } else if only_seg.is_empty()
@@ -224,6 +237,7 @@ fn body(space: Space) -> impl Fn(&Ch) -> Run + Sync + Send {
                   "omits-code-module-that-has-types-dependency" => OMITS.to_string(),
                   "json-without-attribute-accepted-in-dynamic-branch" => JSON_LENIENT.to_string(),
                   "root-leniency" => ROOT_LENIENT.to_string(),
+                  "json-strict" => JSON_STRICT.to_string(),
                   _ => format!("segment-differs-from-direct-build@{kind:?}:{cls}"),
                 },
                 format!("segment only: {only_seg:?}; direct build only: {only_direct:?}"),
